@@ -91,6 +91,7 @@ SPECTATOR = 'c1ccccc1F'
 
 K_CHECK = 8     # patches per template call that get the full post-condition (all get the count contract)
 CAP_R = 80      # reactions consumed per Reactor call
+T_REACTOR = [4.]  # seconds per Reactor call (quick; thorough 12)
 MAXV = 4        # violations reported per work item and clause
 
 # ----------------------------------------------------------------------------------------------------------- wrapper state
@@ -458,8 +459,16 @@ def same_sets(base, got):
 
 
 def call_reactor(R, mols):
-    rs = list(itertools.islice(R(*mols), CAP_R))
-    return rs, len(rs) >= CAP_R
+    """reactions of one call, at most CAP_R and at most T_REACTOR[0] seconds (exhaustive mode with polymerise_limit 10 can explode);
+    a truncated list is never used in a set comparison"""
+    import time
+    t0 = time.time()
+    rs = []
+    for x in R(*mols):
+        rs.append(x)
+        if len(rs) >= CAP_R or time.time() - t0 > T_REACTOR[0]:
+            return rs, True
+    return rs, False
 
 
 def run_reactor(job, texts, out):
@@ -517,6 +526,7 @@ def run_reactor(job, texts, out):
             fire('raises', f'reactor raised {type(e).__name__}: {e} on variant {vn}', error=repr(e))
             continue
         out[0] += 1
+        _STAT['reactor-capped'] += cp
         if not cp:
             ok, oa, ob = same_sets(base, got)
             if not ok:
@@ -547,6 +557,7 @@ def run_reactor(job, texts, out):
         fire('raises', f'reactor (other mode) raised {type(e).__name__}: {e}', error=repr(e))
         other, cp = [], True
     out[0] += 1
+    _STAT['reactor-capped'] += cp
     if not cp:
         one, exh = (set(bset), {prodkey(x) for x in other}) if R._one_shot else ({prodkey(x) for x in other}, set(bset))
         if not one <= exh:
@@ -653,7 +664,10 @@ def _pair_item(i):
         _BUDGET[0] = K_CHECK
         try:
             ms = [domains.parse(t) for t in texts]
+            t1 = time.time()
             for x in itertools.islice(getattr(reactions, job['name'])(*ms), CAP_R):
+                if time.time() - t1 > T_REACTOR[0]:
+                    break
                 c = Counter(k for p in x.products for k in p)
                 if any(v > 1 for v in c.values()):
                     fire('reactor-numbers', f'prepared reactor: products share atom numbers: {x}', reaction=str(x))
@@ -726,6 +740,7 @@ def bounded(run):
     import networkx as nx
     from networkx.generators.atlas import graph_atlas_g
     thorough = run.tier == 'thorough'
+    T_REACTOR[0] = 12. if thorough else 4.
     run.assume('oracles/o16_deleted.py: removed atoms = named unmasked matched atoms + components (after their removal) that touched them and '
                'contain no remaining matched atom (plain flood fill)',
                'stereo configurations are compared with the library\'s own sign translation (_translate_tetrahedron_sign / '
@@ -838,7 +853,7 @@ def bounded(run):
               f'{sum(len(getattr(reactions, n).rxn_os) for n in reactions.__all__[2:])} reactors of the {len(reactions.__all__) - 2} prepared reaction '
               f'collections x reactant tuples drawn (seeded, <= {kpairs} per reactor, {kpairs * 3} per synthetic) from the molecules (<= 40 atoms) of the '
               f'sample that match each reactant pattern: {len(_PAIRS)} tuples ({nb} built-in); each in base / reversed order / renumbered / '
-              f'disjoint numbers / with spectator / other mode; at most {CAP_R} reactions consumed per call')
+              f'disjoint numbers / with spectator / other mode; at most {CAP_R} reactions / {T_REACTOR[0]} s consumed per call (truncated calls take part in no set comparison; counted as reactor-capped)')
     pres = pmap(_pair_item, range(len(_PAIRS)), chunksize=1)
     absorb(pres)
     sec['reactors'] = round(time.time() - t0, 1)
